@@ -507,9 +507,17 @@ func (w *Wallet) syncWithChain(birthdayStamp *waddrmgr.BlockStamp) error {
 			rollback = true
 		}
 
-		// If a rollback did not happen, we can proceed safely.
+		// If a rollback did not happen, the synced-to block is still
+		// on the chain. The transactions of a block are recorded
+		// before the block becomes the synced-to block, in a database
+		// transaction of their own, so after an unclean shutdown the
+		// transaction store may hold records above the synced-to
+		// height, in a block that may have been replaced since.
+		// Unconfirm those, the rescan below confirms them again.
 		if !rollback {
-			return nil
+			return w.TxStore.Rollback(
+				txmgrNs, rollbackStamp.Height+1,
+			)
 		}
 
 		// Otherwise, we'll mark this as our new synced height.
